@@ -25,29 +25,54 @@ type Clause struct {
 }
 
 type FuncContract struct {
-	Kind      string // func | extern | iface | spec
-	Name      string
-	Params    []string // spec blocks: parameter names
-	Requires  []*Clause
-	Assumes   []*Clause // preconditions that call sites do not check (explicit assumptions)
-	Updates   []*GhostUpdate
-	Alias     []string // positional parameter names (closure specs)
-	InPlace   []string // slice parameters whose elements the function rewrites (visible to the caller)
-	SpecOf    string
-	Ensures   []*Clause
-	LoopInv   map[int][]*Clause
-	LoopDec   map[int]*Clause
-	Modifies  []string
-	HasMod    bool
-	NoPanic   bool
-	Pure      bool
-	Trusted   bool // body not verified (extern / iface)
-	Props     []string
-	File      string
-	Line      int
-	Notes     []string
-	Inline    bool // force inlining at call sites instead of modular use
-	Terminate bool
+	Kind         string // func | extern | iface | spec
+	Name         string
+	Params       []string // spec blocks: parameter names
+	Requires     []*Clause
+	Assumes      []*Clause // preconditions that call sites do not check (explicit assumptions)
+	Updates      []*GhostUpdate
+	Alias        []string // positional parameter names (closure specs)
+	InPlace      []string // slice parameters whose elements the function rewrites (visible to the caller)
+	SpecOf       string
+	Ensures      []*Clause
+	LoopInv      map[int][]*Clause
+	LoopDec      map[int]*Clause
+	Modifies     []string
+	HasMod       bool
+	NoPanic      bool
+	Pure         bool
+	Trusted      bool // body not verified (extern / iface)
+	Props        []string
+	File         string
+	Line         int
+	Notes        []string
+	Inline       bool // force inlining at call sites instead of modular use
+	Terminate    bool
+	Captures     []*Clause // closures: facts about captured variables, checked where the closure is created
+	GlobalInvs   []*TypeDecl
+	Implementers bool // iface: every implementer in the loaded program is verified against this contract
+}
+
+// SinkDecl: every string parameter of every method of the receiver type must satisfy the predicate;
+// string results satisfy it (assumed contract of the library that renders the text).
+type SinkDecl struct {
+	Recv  string
+	Pred  string
+	Props []string
+	File  string
+	Line  int
+}
+
+// TypeDecl: typeinv / typespec / globalinv declarations.
+type TypeDecl struct {
+	Kind  string // typeinv | typespec | globalinv
+	Name  string // pkg.Type or pkg.Var
+	Spec  string // typespec: closure spec name
+	Inv   *Clause
+	Props []string
+	pkg   *types.Package
+	File  string
+	Line  int
 }
 
 // MonitorDecl: state protected by a mutex field and the invariant that holds whenever the mutex is free.
@@ -140,6 +165,9 @@ type ContractSet struct {
 	Defs       map[string]*DefDecl
 	Errors     []string
 	pkgUFuns   map[string]*UFun
+	StrPreds   []string
+	Sinks      []*SinkDecl
+	TypeDecls  []*TypeDecl
 	pkgOf      map[string]*types.Package // contract name -> package of the file declaring it
 }
 
@@ -348,6 +376,57 @@ func (cs *ContractSet) parseLines(fname string, lines []struct {
 			}
 			cs.pkgUFuns[name] = &UFun{Name: name, Result: strings.TrimSpace(rest[j+1:])}
 			cur, curLemma = nil, nil
+		case "strpred":
+			// strpred name : a predicate on strings closed under the string-building operations (see strpred.go)
+			name := strings.TrimSpace(stripComment(rest))
+			cs.pkgUFuns[name] = &UFun{Name: name, Result: "bool"}
+			cs.StrPreds = append(cs.StrPreds, name)
+			cur, curLemma = nil, nil
+		case "typeinv", "globalinv":
+			i := strings.Index(rest, ":")
+			if i < 0 {
+				cs.errf(fname, l.line, "%s: expected '<name>: <expr over self>'", word)
+				continue
+			}
+			td := &TypeDecl{Kind: word, Name: strings.TrimSpace(rest[:i]), pkg: pkg, File: fname, Line: l.line}
+			td.Inv = mkClause(rest[i+1:], l.line, 1)
+			if td.Inv != nil {
+				td.Props = td.Inv.Props
+				cs.TypeDecls = append(cs.TypeDecls, td)
+			}
+			cur, curLemma = nil, nil
+		case "typespec":
+			full := rest
+			rest = stripComment(rest)
+			w1, r1 := splitWord(rest)
+			td := &TypeDecl{Kind: word, Name: w1, Spec: strings.TrimSpace(r1), pkg: pkg, File: fname, Line: l.line}
+			if len(full) > len(rest) {
+				td.Props = rePropID.FindAllString(full[len(rest):], -1)
+			}
+			cs.TypeDecls = append(cs.TypeDecls, td)
+			cur, curLemma = nil, nil
+		case "sinks":
+			full := rest
+			rest = stripComment(rest)
+			w1, r1 := splitWord(rest)
+			sd := &SinkDecl{Recv: w1, Pred: strings.TrimSpace(r1), File: fname, Line: l.line}
+			if len(full) > len(rest) {
+				sd.Props = rePropID.FindAllString(full[len(rest):], -1)
+			}
+			cs.Sinks = append(cs.Sinks, sd)
+			cur, curLemma = nil, nil
+		case "captures":
+			if cur == nil {
+				cs.errf(fname, l.line, "captures outside a func block")
+				continue
+			}
+			if c := mkClause(rest, l.line, len(cur.Captures)+1); c != nil {
+				cur.Captures = append(cur.Captures, c)
+			}
+		case "implementers":
+			if cur != nil {
+				cur.Implementers = true
+			}
 		case "lemma":
 			name, params, err := parseHead(strings.TrimSpace(rest))
 			if err != nil {
